@@ -289,6 +289,45 @@ func runC15(c *Ctx) {
 		}
 		r.Min("C15-H3", n, 3, "assignments to the per-partition argument list")
 	}
+	// H3 (pairing): handlers[i] and cmds[i] are handed out as a pair; they are built in ONE iteration over the handler
+	// map (two separate iterations of a Go map visit the keys in different orders)
+	if u := c.unit("C15-H3", "server.(*Server).getHandlersForKeys"); u != nil {
+		var hs, cs *flow.Site
+		for _, s := range u.Sites {
+			if s.Kind == flow.SStore && s.RHS != nil {
+				switch {
+				case localName(u, s.LHS) == "handlers" && strings.HasPrefix(u.C.Term(s.RHS), "append(handlers, "):
+					hs = s
+				case localName(u, s.LHS) == "cmds" && strings.HasPrefix(u.C.Term(s.RHS), "append(cmds, "):
+					cs = s
+				}
+			}
+		}
+		ok := hs != nil && cs != nil
+		why := "the two appends were not found"
+		if ok {
+			// the innermost range statement around each append is the same one, and it ranges over the handler map
+			inner := func(s *flow.Site) *ast.RangeStmt {
+				var out *ast.RangeStmt
+				ast.Inspect(u.Body, func(n ast.Node) bool {
+					if rs, isR := n.(*ast.RangeStmt); isR && rs.Body.Pos() <= s.Pos && s.Pos < rs.Body.End() {
+						out = rs
+					}
+					return true
+				})
+				return out
+			}
+			a, b := inner(hs), inner(cs)
+			ok = a != nil && a == b
+			why = "handlers and cmds are appended in different loops: position i of one does not belong to position i of the other"
+			if ok {
+				ok = strings.HasPrefix(u.C.Term(cs.RHS), "append(cmds, server.buildCommand(cmdArgMap[name]))") && localName(u, a.Key) == "name" && localName(u, a.Value) == "handler" &&
+					u.C.Term(hs.RHS) == "append(handlers, handler)"
+				why = "the command is not built from the arguments grouped under the same name as the handler"
+			}
+		}
+		r.Check("C15-H3", u.Name+": the handler and the command of one partition are appended in the same iteration, under the same name", "", ok, why)
+	}
 	// H4: the modulus the server routes with is the partition count of the namespace as configured now
 	if u := c.unit("C15-H2", "node.(*NamespaceMgr).InitNamespaceNode"); u != nil {
 		set := an.StoreTerm("recv.nsMetas[p0.BaseName]")
